@@ -23,10 +23,10 @@ RULE = (
     "evaluated in a loop with changing nested structure, unusual but valid spellings of the call and of the "
     "hand-written value (parenthesised callee, comments inside the call, trailing commas, `dict(a=1)`, "
     "implicit string concatenation, operators), containers with star-expressions compared once, in a loop or "
-    "never; all 16 approved sets. Oracle in process: collecting the "
+    "never; files with unix, dos or mixed line endings; all 16 approved sets. Oracle in process: collecting the "
     "changes, apply_all and fix_all raise nothing, the replacements recorded for a file are pairwise "
     "non-overlapping (checked on the recorder, independently of the internal assert) and the result parses. "
-    "Oracle in a real session: no INTERNALERROR, exit status in {0, 1}, the inline-snapshot report terminates, "
+    "Oracle in a real session (started in the project directory, in its parent or in a sibling directory): no INTERNALERROR, exit status in {0, 1}, the inline-snapshot report terminates, "
     "the files parse. non-trivial = a test raised or a comparison failed, and a nested snapshot or a raising "
     "comparison is present."
 )
@@ -63,7 +63,13 @@ def _frag(draw, tier, idx):
             "[] == snapshot([1, 2][:0])", "5 == snapshot(2 if True else 3)", "[1, 2] == snapshot([x for x in [1]])",
             "'ab' == snapshot('a' 'c')", "'ab' == snapshot(('a'\n    'c'))", "-1 == snapshot(- 2)", "1 == snapshot(+1)",
             "1 == snapshot(not 0)", "[1, 2] == snapshot([1] + [3])", "{1, 2} == snapshot({1} | {3})",
+            # values that come from a name instead of a display / call
+            "Point(x=1, y=2) == snapshot(PT)", "Point(x=1, y=3) == snapshot(PT)", "[Point(x=1, y=2)] == snapshot([PT])",
+            "{'k': 1} == snapshot(DBASE)", "[1, 2] == snapshot(BASE)", "[1, 2, 3] == snapshot(BASE)",
+            "NT(a=1, b=2) == snapshot(NTV)", "{'p': Point(x=1, y=2)} == snapshot({'p': PT, 'q': PT})",
         ]))
+        f["loop"] = draw(st.sampled_from([0, 0, 2]))
+        f["unused"] = draw(st.sampled_from([False, False, False, True]))
     elif kind == "star":
         f["expr"] = draw(st.sampled_from([
             "[1, 2, 5] == snapshot([*BASE, 5])", "[1, 2, 6] == snapshot([*BASE, 5])", "(1, 2, 5) == snapshot((*BASE, 0x5))",
@@ -97,7 +103,11 @@ def _case(draw, tier):
     frags = [draw(_frag(tier, i)) for i in range(n)]
     ntests = draw(st.sampled_from([1, 2, 3]))
     assign = [draw(st.integers(0, ntests - 1)) for _ in frags]
-    return {"frags": frags, "assign": assign, "F": draw(flag_sets())}
+    return {"frags": frags, "assign": assign, "F": draw(flag_sets()),
+            # line endings of the file: unix, dos, or both kinds in one file
+            "eol": draw(st.sampled_from(["lf", "lf", "lf", "crlf", "mixed", "mixed"])),
+            # (real sessions) where pytest is started: in the project, in its parent or in a sibling directory
+            "cwd": draw(st.sampled_from(["project", "project", "parent", "sibling"]))}
 
 
 def render_frag(f):
@@ -124,6 +134,10 @@ def render_frag(f):
         return [f"assert [1, [1, 2]] == snapshot([{f['inner']}, snapshot([1, 2])])"], []
     if k == "cmp_raises":
         return [f"assert {f['expr']}"], []
+    if k == "spelling" and "\n" not in f["expr"] and (f.get("unused") or f.get("loop")):
+        if f.get("unused"):
+            return [f"z{n} = " + f["expr"].split(" == ", 1)[1]], []
+        return [f"for _ in range({f['loop']}):", f"    assert {f['expr']}"], []
     if k == "spelling":
         return (f"assert {f['expr']}").split("\n"), []
     if k == "star":
@@ -152,7 +166,7 @@ def render_frag(f):
 
 def render(case):
     header = ["from inline_snapshot import snapshot, Is", "from vf_prelude import *", "", "LOG = []",
-              "BASE = [1, 2]", "DBASE = {'a': 1, 'b': 2}", "",
+              "BASE = [1, 2]", "DBASE = {'a': 1, 'b': 2}", "PT = Point(x=1, y=2)", "NTV = NT(a=1, b=2)", "",
               "class Raiser:", "    def __eq__(self, other):", "        raise RuntimeError('eq')", ""]
     helpers = []
     tests = {}
@@ -169,7 +183,14 @@ def render(case):
         out.append(f"def test_{t}():")
         out += ["    " + l for l in tests[t]]
         out.append("")
-    return "\n".join(out) + "\n"
+    text = "\n".join(out) + "\n"
+    eol = case.get("eol", "lf")
+    if eol == "crlf":
+        text = text.replace("\n", "\r\n")
+    elif eol == "mixed":
+        lines = text.split("\n")
+        text = "".join(l + ("\r\n" if i % 3 == 0 else "\n") for i, l in enumerate(lines[:-1])) + lines[-1]
+    return text
 
 
 def overlap_check(recorder, src):
@@ -223,10 +244,22 @@ def check_inline(case):
 def check_pytest(case):
     src = render(case)
     F = case["F"]
-    d = drivers.make_project({"test_a.py": src})
+    cwd = case.get("cwd", "project")
+    if cwd == "project":
+        d = drivers.make_project({"test_a.py": src})
+    else:
+        d = drivers.make_project({"proj/test_a.py": src, "proj/pyproject.toml": drivers.DEFAULT_PYPROJECT}, pyproject=None)
     try:
         args = ["--inline-snapshot=" + ",".join(F)] if F else []
-        r = drivers.run_pytest(d, args)
+        if cwd == "project":
+            r = drivers.run_pytest(d, args)
+        elif cwd == "parent":
+            r = drivers.run_pytest(d, args + ["proj/test_a.py"])
+            r.files_after = {"test_a.py": (d / "proj" / "test_a.py").read_bytes()}
+        else:
+            (d / "other").mkdir()
+            r = drivers.run_pytest(d / "other", args + ["../proj/test_a.py"])
+            r.files_after = {"test_a.py": (d / "proj" / "test_a.py").read_bytes()}
         if "INTERNALERROR" in r.stdout or "INTERNALERROR" in r.stderr or r.returncode not in (0, 1):
             raise Violation("internal-error", f"F={F} rc={r.returncode}\n{src}\n{r.stdout[-3000:]}\n{r.stderr[-1500:]}")
         if "Traceback (most recent call last)" in r.stderr:
@@ -241,7 +274,7 @@ def check_pytest(case):
     finally:
         shutil.rmtree(d, ignore_errors=True)
     kinds = {f["kind"] for f in case["frags"]}
-    return {"nontrivial": True, "classes": sorted(kinds), "sample": {"F": F, "before": src}}
+    return {"nontrivial": True, "classes": sorted(kinds) + ["cwd=" + cwd], "sample": {"F": F, "before": src}}
 
 
 ARMS = [
